@@ -257,7 +257,22 @@ func (s *Script) slice(opaque map[string]bool, terms ...string) string {
 	for it := range inc {
 		its = append(its, it)
 	}
-	sort.Slice(its, func(i, j int) bool { return its[i].Order < its[j].Order })
+	rank := func(it *Item) int {
+		switch {
+		case strings.HasPrefix(it.Text, "(declare-sort"):
+			return 0
+		case strings.HasPrefix(it.Text, "(declare-datatypes"):
+			return 1
+		}
+		return 2
+	}
+	sort.Slice(its, func(i, j int) bool {
+		ri, rj := rank(its[i]), rank(its[j])
+		if ri != rj {
+			return ri < rj
+		}
+		return its[i].Order < its[j].Order
+	})
 	var b strings.Builder
 	for _, it := range its {
 		if it.Alt != "" && opaque[it.Names[0]] {
